@@ -26,6 +26,11 @@ let z_of_int64_bits (v : int64) : z =
         | Some p, true -> Some (XI p) in
       go (i - 1) acc' in
   match go 63 None with None -> Z0 | Some p -> Zpos p
+(* a signed decimal that fits int64 but not OCaml's 63-bit int (durations in ns up to 2^63 - 1) *)
+let z_of_decimal (s : string) : z =
+  let v = Int64.of_string s in
+  if Int64.compare v 0L >= 0 then z_of_int64_bits v
+  else match z_of_int64_bits (Int64.neg v) with Zpos p -> Zneg p | _ -> Z0
 let int64_bits_of_z (x : z) : int64 =
   let rec go (p : positive) : int64 = match p with
     | XH -> 1L | XO q -> Int64.shift_left (go q) 1 | XI q -> Int64.logor (Int64.shift_left (go q) 1) 1L in
